@@ -9,7 +9,7 @@ COMMON_TRUST = [
     "machine integers as mathematical integers (overflow outside the claim; counters assumed < 2^20 where arithmetic occurs)",
 ]
 
-BROKER_H = ["eventlogger/broker_state.go", "eventlogger/broker_ops.go", "eventlogger/c02.go", "eventlogger/c01_c07_c20.go", "eventlogger/c14.go", "eventlogger/c04.go", "eventlogger/c12.go", "eventlogger/interleave.go"]
+BROKER_H = ["eventlogger/broker_state.go", "eventlogger/broker_ops.go", "eventlogger/c02.go", "eventlogger/c01_c07_c20.go", "eventlogger/c14.go", "eventlogger/c04.go", "eventlogger/c12.go", "eventlogger/interleave.go", "eventlogger/c19.go"]
 
 PROPS = {
     "C02": dict(
@@ -148,3 +148,15 @@ PROPS["C02"]["level"] = "model_checking"
 PROPS["C02"]["explanation"] += " " + EO_NOTE + "Queries S: exactly one status is received per pipeline when not cancelled; never more statuses than pipelines (each received status is matched to one real send)."
 for _p in ("C01", "C02"):
     PROPS[_p]["bounds"] = dict(quick=PROPS[_p]["bounds"]["quick"] + "; EO: 15 ordered shapes P<=3 x N in {2,3}", thorough=PROPS[_p]["bounds"]["thorough"] + "; EO: P<=4 x N in {2,3,5} + 4x4 + 5x3")
+PROPS["C19"] = dict(
+    level="other",
+    explanation="Lockset analysis (as C04) over the library's own nodes: every ordered pair of core node kinds (Filter, JSONFormatter, JSONFormatterFilter) processing the same *Event, shared or separate instances; Event.FormattedAs/Format pairs; writer.Sink Process||Process/Reopen; gated.Filter Process||Process/FlushAll/Close; cloudevents Process||Process/Rotate. Conflicting accesses without a common lock are replayed natively under go test -race. Plus the two-event sequential harnesses (a stored []byte must not alias memory reused by a later Process call).",
+    jobs=[dict(harness=BROKER_H, entries=r"^H_C19_|^H_C14_two_events$", params=dict(quick={}, thorough={}), shards=dict(quick=4, thorough=8)),
+          dict(pkg="./sinks/writer", harness=["sinks/writer.go", "sinks/writer_c19.go"], entries=r"^H_C19_", params=dict(quick=dict(F=2), thorough=dict(F=2))),
+          dict(pkg="./filters/gated", harness=["gated/gated.go", "gated/c19.go"], entries=r"^H_C19_", params=dict(quick={}, thorough={}), shards=dict(quick=4, thorough=8)),
+          dict(pkg="./formatter_filters/cloudevents", harness=["cloudevents/cloudevents.go", "cloudevents/c19.go"], entries=r"^H_C19_|^H_C18_two_events$", params=dict(quick=dict(T=1), thorough=dict(T=1)))],
+    must_reach=["C19.core.end", "C19.table.end", "C19.writer.end", "C19.gated.end", "C19.cloudevents.end"],
+    bounds=dict(quick="pairwise (a data race is a pairwise notion); one shared Event; node instances shared or not", thorough="same"),
+    assumptions=["public configuration fields that the library never writes are read-only by contract", "FileSink, ChannelSink and encrypt.Filter pairs: see DESIGN (not yet covered)"],
+    trusted_base=COMMON_TRUST,
+)
